@@ -23,6 +23,10 @@ CLAIMED = {
          "Kernel only: one StreamIdSet::allocate / free step from symbolic bitmaps (512 blocks) is decided by CBMC: lowest free id handed out, never an id in use, exactly one bit changes, None iff exhausted.",
          "Only the id-reservation arithmetic is decided. The delivery clause (response reaches exactly its request) and every schedule quantifier live in ResponseHandlerMap/router tasks (HashMap + tokio) and are NOT decided. Allocation is checked for the first non-full block at concrete indices {0,511} quick / {0,1,255,256,510,511} thorough with symbolic contents.",
          K),
+ "C03": ("DESIGN.md §5 C03",
+         "The Murmur3 partitioner hasher is decided against an independent bit-vector definition of Cassandra's MurmurHash3_x64_128 (signed-byte tail, Long.MIN_VALUE -> Long.MAX_VALUE): block mix and fmix for all inputs; finish() from an arbitrary hasher state for every tail length 0..15; token of every byte string of the listed lengths; every 2-way (and a grid of 3-way) chunking reaches the same hasher state; CDC partitioner = first 8 bytes big-endian, short keys give the invalid token.",
+         "Lengths: quick {0,1,7,8,9,15,16,17,31,32,33}, thorough 0..48 and 63..65, 70. The composite-key encoding / bind-marker permutation (PartitionKey::new, deser_prepared_metadata pk-index ordering) is NOT decided yet (SmallVec + SerializedValues iteration); nor is the choice of partitioner from table metadata. Trusted: mir2smt translator + library models (Wrapping, slices, bytes::Buf).",
+         S),
  "C04": ("DESIGN.md §5 C04",
          "Kernel only: TokenRing<T> walk (new/sort, ring_range_full, ring_range, get_elem_for_token) for rings of 0..4 (thorough 5) members with fully symbolic tokens and query: starts at the first member clockwise from the token, visits each member once, wraps once.",
          "Replica-set computation proper (SimpleStrategy / NetworkTopologyStrategy, precomputed vs on-the-fly, DC restriction, ReplicaSet views) goes through HashMap/HashSet/itertools::unique over Arc<Node> and is NOT decided (CBMC cannot execute HashMap insertion here).",
